@@ -26,7 +26,12 @@ func (s *Session) AbortProbe(r *RNG, p Params, how string) {
 		kind := kinds[r.Intn(len(kinds))]
 		nth := r.Intn(4)
 		if kind == "sync" {
-			nth = 0 // the data sync; a failure of the final sync may legitimately persist the commit
+			// the data sync or the final sync. A failing final sync leaves the new header on disk;
+			// restoreMeta (42e3ef9) writes the old one back, so this attempt leaves no trace either
+			nth = r.Intn(2)
+			if nth == 1 {
+				s.mark("abort-final-sync-fails")
+			}
 		}
 		p.BeforeEnd = func(s *Session, commit bool) {
 			if !commit {
@@ -778,7 +783,10 @@ func RunFaultProgram(r *RNG, cfg Config, p Params) (*Session, FaultStats) {
 			s.mark("abort-before-fault-reopen")
 		}
 		s.CloseFile()
-		allowed := append([]SpecState{s.specState(-1)}, maybe...)
+		// A clean close + reopen shows the last committed state. An attempt that failed only in its
+		// final sync is NOT allowed here: no fault hit its restoreMeta, which has put the old header
+		// back (a crash before that restore is durable is the business of the acceptor, not of this check).
+		allowed := []SpecState{s.specState(-1)}
 		if s.resized {
 			for i := range allowed {
 				allowed[i].LeakOK = true
